@@ -1,3 +1,4 @@
+\* thorough tier: source 4+2, most concurrent shape x 2 faults
 CONSTANTS
   MaxIdx = 6
   FaultKinds = {"short", "fetchErr", "quota", "fatal", "rootErr", "sthErr", "consErr", "cancel", "revoke"}
@@ -9,7 +10,7 @@ CONSTANTS
   SubmitterCounts = {2}
   Modes = {"run", "master"}
   Conts = {TRUE, FALSE}
-  Forks = {TRUE, FALSE}
+  Forks = {FALSE}
   MaxFaults = 2
   FaultBudgets = {2}
   MaxRestarts = 1
